@@ -77,6 +77,28 @@ def run(ctx):
         ctx.sample({f"{name}_schedule": cases[len(cases) // 2][:16]})
         for f in res["findings"]:
             ctx.violation(f"Reconnect/{name}/{f['event']}", {"kind": "recon-trace", "family": name, **f})
+    # log_runner.async_run on top of the manager (LogRunner.tla): one subscription per established session, the
+    # configuration dump requested the first time only, log lines delivered while a session is up, quiet after stop
+    from vf import tracecheck
+
+    ctx.tlc("MC_LogRunner", timeout=300)
+    lcases = reconsim.log_runner_family(rng, 150 if ctx.quick else 3000)
+    ltraces = [reconsim.run_log_schedule(sch, seed=ctx.seed * 17 + i) for i, sch in enumerate(lcases)]
+    lres = tracecheck.run_batch(ctx, "TraceLogRunner", [{"rows": t["rows"]} for t in ltraces], batch=2000, tag="logrunner")
+    ctx.evaluations += len(lcases)
+    ctx.distinct |= {("log_runner", i) for i in range(len(lcases))}
+    ctx.extra["reached_log_runner"] = {k: sum(1 for t in ltraces for r in t["rows"] if r["e"][0] == k) for k in ("sub", "log", "down", "stop_ret")}
+    # (no listed property is about the log runner: a mismatch here is reported in the evidence, it is NOT a violation of C18)
+    mism = []
+    for idx, line in lres["rejected"]:
+        row = ltraces[idx]["rows"][line - 1] if line - 1 < len(ltraces[idx]["rows"]) else {"e": ["end"]}
+        mism.append({"event": row["e"], "line": line, "schedule": lcases[idx][:30]})
+    for idx, invname in lres["invariant"]:
+        mism.append({"event": ["invariant", invname], "line": 0, "schedule": lcases[idx][:30]})
+    ctx.extra["log_runner_mismatches"] = len(mism)
+    if mism:
+        ctx.extra["log_runner_first_mismatch"] = mism[0]
+        ctx.notes.append(f"log_runner.async_run deviates from LogRunner.tla in {len(mism)} executions (outside the listed properties)")
     ctx.assumptions += [
         "user callbacks return without awaiting; start() is called on a stopped manager at rest without a live session",
         "a cancelled attempt ends as a failed attempt (it is counted and reported like one), as the library converts the cancellation",
@@ -85,6 +107,15 @@ def run(ctx):
 
 
 def replay(ctx, case):
+    if case.get("kind") == "logrunner-trace":
+        from vf import tracecheck
+
+        t = reconsim.run_log_schedule([tuple(x) for x in case["schedule"]], seed=case.get("seed", 0))
+        res = tracecheck.run_batch(ctx, "TraceLogRunner", [{"rows": t["rows"]}], batch=10, tag="replay")
+        for idx, line in res["rejected"]:
+            print("  unexplained row", line, t["rows"][line - 1] if line - 1 < len(t["rows"]) else "end")
+            ctx.violation(case["sig"], {"kind": "logrunner-trace", "line": line})
+        return
     res = run_family(ctx, "replay", [[tuple(x) for x in case["schedule"]]])
     for f in res["findings"]:
         print("  unexplained row", f["line"], f["event"])
